@@ -118,10 +118,10 @@ theorem ginv_all {W : Colls} : ∀ (cs : List (Req × Forest)) (seen : List (Req
     GInv W seen s → (∀ p, p ∈ cs → FlatReq p.1 p.2 ∧ W.mem p.1.2.1) →
     (∀ p, p ∈ cs → ∀ q, q ∈ seen → q.1.2.1.uid ≠ p.1.2.1.uid) →
     cs.Pairwise (fun a b => a.1.2.1.uid ≠ b.1.2.1.uid) →
-    aggregateAll (cs.map (·.1)) s = .ok s' → GInv W (cs.reverse ++ seen) s'
+    aggregateAll (cs.map (·.1)) s = .ok s' → GInv W (cs.reverse ++ seen) s' ∧ s'.cfg = s.cfg
   | [], seen, s, s', hG, _, _, _, h => by
     simp only [List.map_nil, aggregateAll, Except.ok.injEq] at h
-    subst h; simpa using hG
+    subst h; exact ⟨by simpa using hG, rfl⟩
   | p :: cs, seen, s, s', hG, hfl, hfr, hpw, h => by
     rw [List.map_cons, aggregateAll_cons] at h
     rw [List.pairwise_cons] at hpw
@@ -132,7 +132,7 @@ theorem ginv_all {W : Colls} : ∀ (cs : List (Req × Forest)) (seen : List (Req
       rw [ha] at h
       simp only at h
       obtain ⟨hp1, hp2⟩ := hfl p List.mem_cons_self
-      have hG1 := ginv_step hG hp1 hp2 (fun _ q hq => hfr p List.mem_cons_self q hq) (by cases u; exact ha)
+      obtain ⟨hG1, hcf1⟩ := ginv_step hG hp1 hp2 (fun _ q hq => hfr p List.mem_cons_self q hq) (by cases u; exact ha)
       have := ginv_all cs ((p.1, p.2) :: seen) s1 s' hG1 (fun q hq => hfl q (List.mem_cons_of_mem _ hq))
         (by
           intro q hq q' hq'
@@ -140,7 +140,7 @@ theorem ginv_all {W : Colls} : ∀ (cs : List (Req × Forest)) (seen : List (Req
           · exact hpw.1 q hq
           · exact hfr q (List.mem_cons_of_mem _ hq) q' hq')
         hpw.2 h
-      simpa [List.reverse_cons, List.append_assoc] using this
+      exact ⟨by simpa [List.reverse_cons, List.append_assoc] using this.1, this.2.trans hcf1⟩
 
 /-! ### classes of names -/
 
